@@ -24,6 +24,8 @@ CLAIMS["C03"] = ("partial, strong: buffer-then-apply (every table-reaching call 
     "path-sensitive effect counting with forked call results over computed return sets, dominating guards, loop-structure matching, call graph closure")
 CLAIMS["C08"] = ("partial: the socket state machine is extracted from the IR (one abstract iteration per state, interprocedural state-effect summaries of the functions it calls) and checked for handler exhaustiveness, absence of trap states (ESTABLISHED reachable from every state, error arms always leave), time advancing on every cycle (must-occur sleep or blocking receive; FAST_RECONNECT justified by the version decrease), no silent failure returns (timeout / closed connection always change state), and the fate of every class of transport result; the protocol-time bound and equality with the cache's data set are not decided",
     "FSM extraction by abstract evaluation per state, interprocedural effect summaries, graph reachability and cycle analysis")
+CLAIMS["C17"] = ("strong: the interval decision table is evaluated exactly on the IR (callees in place) for 3 types x 4 modes x 11 representative values that are exhaustive because the value is only compared with the range constants and copied; range constants against RFC 8210; End-of-Data arm guards (version 1, mode != IGNORE_ANY) and field/type pairing by RFC offsets; who-writes for the three fields; rtr_init table over 125 cells; wait expression and outcome table of rtr_wait_for_sync and the polling arm",
+    "interprocedural decision-table abstract evaluation (exact finite partition), dominating guards, value-flow shape of the wait expression")
 NA = {}
 def main():
     props = [json.loads(l) for l in open(os.path.join(HERE, "properties.jsonl"))]
